@@ -2,6 +2,7 @@ package generator
 
 import (
 	"fmt"
+	"go/constant"
 	"go/types"
 	"regexp"
 	"sort"
@@ -137,6 +138,16 @@ func (c Cache) Imports() []string {
 	return imports
 }
 
+// SQLLiteral returns the SQL literal for the given constant :
+// numbers are printed as written, strings use single quotes (doubled when
+// they appear in the string).
+func SQLLiteral(val constant.Value) string {
+	if val.Kind() == constant.String {
+		return "'" + strings.ReplaceAll(constant.StringVal(val), "'", "''") + "'"
+	}
+	return val.ExactString()
+}
+
 var reEnums = regexp.MustCompile(`#\[(\w+)\.(\w+)\]`)
 
 // ReplaceEnums replace enum placeholders #[Type.Val] by their values
@@ -149,6 +160,6 @@ func ReplaceEnums(ana *analysis.Analysis, content string) string {
 			panic(fmt.Sprintf("invalid enum placeholder %s: %s is not an enum type", s, typeName))
 		}
 		enumValue := enum.Get(varName)
-		return fmt.Sprintf("%s /* %s.%s */", enumValue.Const.Val().ExactString(), typeName, varName)
+		return fmt.Sprintf("%s /* %s.%s */", SQLLiteral(enumValue.Const.Val()), typeName, varName)
 	})
 }
